@@ -57,7 +57,7 @@ def _cases(tier):
     sc = _sc()
     out = []
 
-    def mk(divs=4, tss=(), kss=(), clefs=(), measures=(), note=(0, 32), staves=1, musical=None):
+    def mk(divs=4, tss=(), kss=(), clefs=(), measures=(), note=(0, 32), staves=1, musical=None, rests=()):
         def f():
             p = sc.Part("P", quarter_duration=divs)
             for t, b_, bt in tss:
@@ -70,6 +70,8 @@ def _cases(tier):
                 p.add(sc.Measure(number=i + 1), s, e)
             for st in range(1, staves + 1):
                 p.add(sc.Note("C", 4, id="n%d" % st, voice=st, staff=st), note[0], note[1])
+            for k_, (rs, re_) in enumerate(rests):
+                p.add(sc.Rest(id="r%d" % k_, voice=5, staff=1), rs, re_)
             if musical is not None:
                 p.use_musical_beat(musical)
             return p
@@ -91,6 +93,12 @@ def _cases(tier):
     out.append(("key_signature_with_mode_none", mk(tss=[(0, 4, 4)], kss=[(0, -7, "none"), (16, 3, "none")], measures=[(0, 16), (16, 32)], note=(0, 32))))
     out.append(("three_changes", mk(tss=[(0, 4, 4), (16, 6, 8), (28, 2, 2)], kss=[(0, 0, "major"), (16, 7, "major"), (28, -7, "minor")],
                                   clefs=[(0, 1, "G", 2, 0), (16, 1, "C", 3, 0), (20, 1, "G", 2, -1)], measures=[(0, 16), (16, 28), (28, 44)], note=(0, 44))))
+    # rests that end exactly at a change of signature, that span one, and that begin at one
+    out.append(("rests_around_signature_changes", mk(tss=[(0, 4, 4), (16, 3, 4), (28, 6, 8)], kss=[(0, 0, "major"), (16, 2, "major"), (28, -3, "minor")], clefs=[(0, 1, "G", 2, 0)],
+                                                     measures=[(0, 16), (16, 28), (28, 40)], note=(0, 40), rests=[(12, 16), (26, 30), (28, 34), (2, 6)])))
+    # musical beats that do not divide the numerator (5/8 counted in two, 7/8 in three), with a pickup
+    out.append(("musical_beats_five_eight_in_two_with_a_pickup", mk(divs=4, tss=[(0, 5, 8)], measures=[(0, 2), (2, 12), (12, 22)], note=(0, 22), musical={"5/8": 2})))
+    out.append(("musical_beats_seven_eight_in_three_with_a_pickup", mk(divs=2, tss=[(0, 7, 8)], measures=[(0, 3), (3, 10), (10, 17)], note=(0, 17), musical={"7/8": 3})))
     out.append(("pickup_4_4", mk(tss=[(0, 4, 4)], kss=[(0, 1, "major")], clefs=[(0, 1, "G", 2, 0)], measures=[(0, 4), (4, 20), (20, 36)], note=(0, 36))))
     # musical beats enabled: a full first bar stays a full bar, a pickup stays a pickup (the extent of a measure does not depend on the beat unit)
     out.append(("musical_beats_full_first_bar_4_4_in_two", mk(tss=[(0, 4, 4)], measures=[(0, 16), (16, 32)], note=(0, 32), musical={"4/4": 2})))
@@ -276,3 +284,17 @@ def bounded(b):
                 if (int(r["rel_onset_div"]), int(r["tot_measure_div"])) != (int(mp[0]), int(mp[1])):
                     good, what = False, "metrical position columns at onset %d differ from the map" % t
             b.case("maps/note_array_columns_agree_with_maps", good, case, what)
+        if list(part.iter_all(sc.Rest)):
+            ok, ra = b.guard("maps/note_array_columns_no_exception", dict(case, array="rest"), lambda: part.rest_array(include_time_signature=True, include_key_signature=True, include_metrical_position=True))
+            if ok:
+                bad = None
+                for r in ra:
+                    t = int(r["onset_div"])
+                    tsv, ksv, mp = np.asarray(part.time_signature_map(t)).ravel(), np.asarray(part.key_signature_map(t)).ravel(), np.asarray(part.metrical_position_map(t)).ravel()
+                    if (int(r["ts_beats"]), int(r["ts_beat_type"])) != (int(tsv[0]), int(tsv[1])):
+                        bad = bad or "rest at %d: time signature columns %d/%d, the map at its onset says %d/%d" % (t, int(r["ts_beats"]), int(r["ts_beat_type"]), int(tsv[0]), int(tsv[1]))
+                    if (int(r["ks_fifths"]), int(r["ks_mode"])) != (int(ksv[0]), int(ksv[1])):
+                        bad = bad or "rest at %d: key signature columns differ from the map at its onset" % t
+                    if "rel_onset_div" in ra.dtype.names and (int(r["rel_onset_div"]), int(r["tot_measure_div"])) != (int(mp[0]), int(mp[1])):
+                        bad = bad or "rest at %d: metrical position columns differ from the map at its onset" % t
+                b.case("maps/note_array_columns_agree_with_maps", bad is None, dict(case, array="rest"), bad or "", nontrivial=len(ra) > 0)
